@@ -33,4 +33,27 @@ if __name__ == "__main__":
             out["cutout"].append({"ok": True, "kept": [coords.index(k) for k in kept], "n": len(kept)})
         except Exception as ex:
             out["cutout"].append({"ok": False, "exc": type(ex).__name__, "msg": str(ex)[:200]})
+    out["land"] = []
+    for c in p.get("land", []):
+        from ghedesigner.domains import polygonal_land_constraint, bi_rectangle_nested
+        from ghedesigner.feature_recognition import determine_largest_rectangle
+        flt = c.get("float", False)
+        outl = [[(conv(v[0:2], flt), conv(v[2:4], flt)) for v in b] for b in c["outlines"]]
+        nogo = [[(conv(v[0:2], flt), conv(v[2:4], flt)) for v in b] for b in c["nogo"]]
+        bmin, bx, by = (conv(v, flt) for v in (c["bmin"], c["bx"], c["by"]))
+        try:
+            kw = {}
+            if "keep_contour" in c:
+                kw["keep_contour"] = list(c["keep_contour"])
+            dom, desc = polygonal_land_constraint(bmin, bx, by, outl, nogo, **kw)
+            rect = determine_largest_rectangle(outl)
+            xs, ys = list(zip(*rect))
+            grid, _ = bi_rectangle_nested(max(xs), max(ys), bmin, bx, by)
+            def pts(f):
+                return [[unfr(Fraction(x)), unfr(Fraction(y))] for x, y in f]
+            out["land"].append({"ok": True, "fields": [[pts(f) for f in l] for l in dom],
+                                "grid": [[pts(f) for f in l] for l in grid] if c.get("want_grid") else None,
+                                "ndesc": [len(d) for d in desc]})
+        except Exception as ex:
+            out["land"].append({"ok": False, "exc": type(ex).__name__, "msg": str(ex)[:200]})
     emit(out)
